@@ -160,6 +160,7 @@ fn apply(p: &mut Pset, st: &Value, r: &mut Rng) {
             let ssig = elements::SchnorrSig { sig, hash_ty: elements::SchnorrSighashType::Default };
             match f {
                 "sequence" => i.sequence = Some(Sequence(0xffff_fffd)),
+                "sequence_final" => i.sequence = Some(Sequence(0xffff_ffff)),
                 "partial_sig" => { i.partial_sigs.insert(pk, vec![0x30, 0x06, 1, 2, 3, 4, 5, 6, 1]); }
                 "tap_key_sig" => i.tap_key_sig = Some(ssig),
                 "tap_script_sig" => { i.tap_script_sigs.insert((xonly, leaf), ssig); }
@@ -320,7 +321,7 @@ pub fn record(args: &[String], out: &mut Out) {
     let path = arg(args, "--out").expect("--out");
     let mut f = std::io::BufWriter::new(std::fs::File::create(&path).expect("create trace"));
     let mut r = rng(seed, 0xc08b);
-    let in_fields = ["sequence", "partial_sig", "tap_key_sig", "tap_script_sig", "final_script_sig", "final_script_witness", "redeem_script",
+    let in_fields = ["sequence", "sequence_final", "partial_sig", "tap_key_sig", "tap_script_sig", "final_script_sig", "final_script_witness", "redeem_script",
         "witness_script", "bip32_derivation", "tap_key_origin", "witness_utxo", "sighash_type", "issuance_value_proof"];
     let out_fields = ["bip32_derivation", "value_proof", "asset_proof", "tap_internal_key", "redeem_script"];
     let mut events = 0u64;
